@@ -106,7 +106,11 @@ Print Assumptions c19_secret_attached_to_requests_only.
    bearer_auth, request.header, header-name projection, secret env read / set — never an argument of a
    formatting / printing / logging / panic macro, a serialisation, a field of a struct that is not
    secret-bearing (an Event, the doctor summary) or an unclassifiable use; the Debug / Serialize /
-   Display capabilities of secret-bearing types are exactly the nine known today. *)
+   Display capabilities of secret-bearing types are exactly the nine known today.  Errors count as values: the result
+   of deserialising a secret-bearing type (or the configuration document into any typed target) is tainted on BOTH
+   sides - serde's type errors quote the offending scalar - so the only such site, config.rs load_effective_config,
+   must discard its error on the spot (UDeserErrDropped) or have it tracked into allowed uses only; the configuration
+   document itself (file text / serde_json::Value) may be parsed, merged and moved but not formatted or serialised. *)
 Theorem c19_code_uses_within_model_flows :
   gen_found_all = true
   /\ Forall (fun k => exists u, use_kind_code u = k /\ u <> UFormat /\ u <> USerialize /\ u <> UOther) gen_use_kinds
